@@ -59,7 +59,7 @@ func c09Plan(seed int64, tier string) []core.Case {
 		for _, wc := range confs {
 			K := c09CountWriter(wl, int(wc))
 			for k := 1; k <= K+1; k++ {
-				for _, mode := range []int64{0, 1} {
+				for _, mode := range []int64{0, 1, 2} {
 					for _, d := range delays {
 						c := core.Case{Kind: "writer", Seed: core.SubSeed(seed, "c09w", wl, wc, k, mode, d),
 							S: map[string]string{"wl": wl}, P: map[string]int64{"wc": wc, "k": int64(k), "mode": mode, "delay": d, "K": int64(K)}}
@@ -251,8 +251,8 @@ func leakCheck(r *core.Result, cfg string) {
 
 func c09Writer(r *core.Result, c core.Case) {
 	wl, wc, k, mode := c.Str("wl"), c.Int("wc"), c.Int("k"), c.Int("mode")
-	cfg := fmt.Sprintf("writer workload=%s wc=%d fault at underlying write %d of %d mode=%s delay=%dms", wl, wc, k, c.Int("K"), []string{"error", "partial+error"}[mode], c.Int("delay"))
-	w := &mon.RecWriter{FailAt: k, Partial: mode == 1}
+	cfg := fmt.Sprintf("writer workload=%s wc=%d fault at underlying write %d of %d mode=%s delay=%dms", wl, wc, k, c.Int("K"), []string{"error", "partial+error", "transient-error"}[mode], c.Int("delay"))
+	w := &mon.RecWriter{FailAt: k, Partial: mode == 1, FailOnce: mode == 2}
 	if d := c.Int("delay"); d > 0 {
 		w.Delay = func(call int) time.Duration {
 			if call == k {
@@ -419,6 +419,7 @@ func c09DriveReader(r *core.Result, cfg, wl string, f *gen.File, src io.Reader, 
 			}
 		}
 	case "history":
+		lastBi, lastOff, seekFailed := 0, 0, false
 		for i := 0; i < 14; i++ {
 			if lost || rng.Intn(3) == 0 {
 				bi := rng.Intn(len(f.Blocks))
@@ -426,7 +427,14 @@ func c09DriveReader(r *core.Result, cfg, wl string, f *gen.File, src io.Reader, 
 				if f.Blocks[bi].Len > 0 && rng.Intn(2) == 0 {
 					off = rng.Intn(f.Blocks[bi].Len + 1)
 				}
-				doSeek(bi, off)
+				if seekFailed && rng.Intn(2) == 0 {
+					bi, off = lastBi, lastOff // retry the Seek that failed
+				}
+				lastBi, lastOff = bi, off
+				seekFailed = !doSeek(bi, off)
+				if !seekFailed && rng.Intn(2) == 0 {
+					doRead([]int{1, 50, 400}[rng.Intn(3)])
+				}
 				continue
 			}
 			if rng.Intn(5) == 0 {
